@@ -172,6 +172,8 @@ class BaseOverlay:
         self.handlers.extend(handlers)
 
     def __enter__(self):
+        # Handlers added while the overlay is active are not installed
+        self.collection = None
         if self.handlers:
             handlers = [(h.selector, h) for h in self.handlers]
             curr = HandlerCollection.current.get()
@@ -184,7 +186,7 @@ class BaseOverlay:
             return collection
 
     def __exit__(self, typ, exc, tb):
-        if self.handlers:
+        if self.collection is not None:
             curr = HandlerCollection.current.get()
             if curr is self.collection:
                 HandlerCollection.current.reset(self.reset)
